@@ -8,6 +8,8 @@
         -> "INVALID-INPUT" | "OK" | "FAIL c<code> .."   codes: Defs.cdt_clauses, 20 triangle not owned by exactly one polygon, 11 disjoint
      V <ulps> <ordered> <env xmin ymin xmax ymax | -> S x y .. G hex hex .. ; hex hex .. ; ..   Voronoi (sites ints, cells bit patterns)
         -> "OK" | "FAIL c<code> .."   codes: Defs.voronoi_clauses, 30 no unique site per cell / not a permutation, 31 non-finite ordinate
+     W <ulps> <env | -> S x y .. G hex hex .. ; ..              Voronoi edges-only output: "OK" | "FAIL c40" (a vertex outside the envelope or not
+                                                                 on a Voronoi edge) | "FAIL c41" (no line although there are >= 2 distinct sites)
      P hex x8                                                    -> "<robust> <nonrobust> <det bits> <deterror bits>"
      Q x y ..                                                    -> "<number of quadruples of the site set inside the predicate's error band> <first one>"
      B x y x8 (q p r t)                                          -> "<robust on grid> <exact location> <incircle> <band>"   *)
@@ -93,6 +95,29 @@ let constrained dj toks =
     if f = [] then "OK" else "FAIL " ^ codes f
   end
 
+let voronoi_edges ulps envtoks secs =
+  let sites = pts_of (sect "S" secs) in
+  let lines_bits = List.filter (fun c -> c <> []) (split_on ";" (sect "G" secs)) in
+  let user = match envtoks with [a; b; c; d] -> Some { exmin = zs a; exmax = zs c; eymin = zs b; eymax = zs d } | _ -> None in
+  let dys = List.map (List.map (fun h -> dyadic_of (of_bits (hex_z h)))) lines_bits in
+  if List.exists (List.exists (fun d -> d = None)) dys then "FAIL c31" else begin
+    let dys = List.map (List.map (function Some d -> d | None -> assert false)) dys in
+    let emin = min_exp (List.concat dys) in
+    let w = scale_dy emin (z_of_int 1, Z0) in
+    let rec pairs l = match l with x :: y :: r -> (scale_dy emin x, scale_dy emin y) :: pairs r | [] -> [] | _ -> failwith "line ordinates" in
+    let lines = List.map pairs dys in
+    let usites = sort_pts sites in
+    let sc (x, y) = (Z.mul w x, Z.mul w y) in
+    let senv e = { exmin = Z.mul w e.exmin; exmax = Z.mul w e.exmax; eymin = Z.mul w e.eymin; eymax = Z.mul w e.eymax } in
+    match diagram_env usites user with
+    | None -> if lines = [] then "OK" else "FAIL c1"
+    | Some denv ->
+      (match usites with
+       | [] | [_] -> if lines = [] then "OK" else "FAIL c40"
+       | _ -> if lines = [] then "FAIL c41" else
+           if check_voronoi_edges ulps (senv denv) (List.map sc usites) lines then "OK" else "FAIL c40")
+  end
+
 let voronoi ulps ordered envtoks secs =
   let sites = pts_of (sect "S" secs) in
   let cells_bits = List.filter (fun c -> c <> []) (split_on ";" (sect "G" secs)) in
@@ -128,6 +153,8 @@ let () =
     (try match words line with
       | "D" :: tol2 :: dj :: rest -> print_endline (delaunay (zs tol2) (dj = "1") (sections rest))
       | "C" :: dj :: rest -> print_endline (constrained (dj = "1") rest)
+      | "W" :: ulps :: "-" :: rest -> print_endline (voronoi_edges (zs ulps) [] (sections rest))
+      | "W" :: ulps :: a :: b :: c :: d :: rest -> print_endline (voronoi_edges (zs ulps) [a; b; c; d] (sections rest))
       | "V" :: ulps :: ordered :: "-" :: rest -> print_endline (voronoi (zs ulps) (ordered = "1") [] (sections rest))
       | "V" :: ulps :: ordered :: a :: b :: c :: d :: rest -> print_endline (voronoi (zs ulps) (ordered = "1") [a; b; c; d] (sections rest))
       | ["P"; a; b; c; d; e; f; g; h] ->
